@@ -346,6 +346,57 @@ Proof.
 Qed.
 Print Assumptions quorum_decision_guards_are_of_current_source.
 
+(** ---- fourth round ---- *)
+
+(** The submission-time check is the one [att_step] models (a proof is accepted iff it unpacks to a
+    registered type AND its BytesToHash succeeds; called before AddEvidence — the translator refuses any
+    other shape), so the premise "stored evidence is hashable" of
+    [attestation_run_never_fails_on_stored_evidence] is the source's.  (Seeded change C04-G.) *)
+Theorem submission_check_is_of_current_source :
+  Gen.C04.evidence_validation =
+    ["if proof == nil || proof.GetTypeUrl() == """" { return error }"; "var hashable evmtypes.Hashable";
+     "if err := k.cdc.UnpackAny(proof, &hashable); err != nil { return error }"; "if hashable == nil { return error }";
+     "if _, err := hashable.BytesToHash(); err != nil { return error }"; "return nil"]%string /\
+  forall (K : Type) (keqb : K -> K -> bool) (h : Z -> Z -> K) (s : @EvidenceHistory.att_state) (e : EvidenceBytes.pev),
+    EvidenceHistory.hashable (EvidenceBytes.pe_proof e) = false ->
+    @EvidenceHistory.att_step K keqb h s (EvidenceHistory.AoSubmit e) = s.
+Proof.
+  exact (conj eq_refl (fun K keqb h s e H => EvidenceHistoryProofs.unhashable_refused keqb h s e H)).
+Qed.
+Print Assumptions submission_check_is_of_current_source.
+
+(** The consensus module's end-blocker attests before it prunes (order, period and age translated from
+    x/consensus/module.go): a request whose stored evidence has a key backed by two thirds of the snapshot is
+    declared by that end-block at ANY height and age — also in a block in which pruning is due — and is not
+    pruned; a pruned request had no winner in that block.  (Seeded change C04-H.) *)
+Theorem end_block_declares_before_it_prunes :
+  Gen.C04.endblock_calls = ["CheckAndProcessEstimatedMessages"; "CheckAndProcessAttestedMessages"; "PruneOldMessages"]%string /\
+  Gen.C04.prune_every = 50 /\ Gen.C04.prune_age = 300 /\
+  (forall (K : Type) (keqb : K -> K -> bool) (h : Z -> Z -> K), (forall a b, keqb a b = true <-> a = b) ->
+   forall added (s : @EvidenceHistory.mod_state) sn (ord : list group -> list group) ht e,
+   (forall gs, Permutation (ord gs) gs) ->
+   EvidenceHistory.ms_pruned s = false -> EvidenceHistory.as_won (EvidenceHistory.ms_att s) = None ->
+   0 < sn_total sn /\ sn_total sn = zsum (map snd (sn_vals sn)) /\ Forall (fun p => 0 <= snd p) (sn_vals sn) ->
+   NoDup (map EvidenceBytes.pe_val (EvidenceHistory.as_evs (EvidenceHistory.ms_att s))) ->
+   Forall (fun x => EvidenceHistory.hashable (EvidenceBytes.pe_proof x) = true) (EvidenceHistory.as_evs (EvidenceHistory.ms_att s)) ->
+   In e (EvidenceHistory.as_evs (EvidenceHistory.ms_att s)) ->
+   2 * sn_total sn <= 3 * power sn (backers keqb (code_key h) (map EvidenceBytes.ev_of (EvidenceHistory.as_evs (EvidenceHistory.ms_att s)))
+                                       (ev_key (code_key h) (EvidenceBytes.ev_of e))) ->
+   exists w, EvidenceHistory.as_won (EvidenceHistory.ms_att (EvidenceHistory.end_block keqb h added s sn ord ht)) = Some w /\
+             ev_key (code_key h) w = ev_key (code_key h) (EvidenceBytes.ev_of e) /\
+             EvidenceHistory.ms_pruned (EvidenceHistory.end_block keqb h added s sn ord ht) = false) /\
+  (forall (K : Type) (keqb : K -> K -> bool) (h : Z -> Z -> K) added (s : @EvidenceHistory.mod_state) sn ord ht,
+   EvidenceHistory.ms_pruned s = false ->
+   EvidenceHistory.ms_pruned (EvidenceHistory.end_block keqb h added s sn ord ht) = true ->
+   EvidenceHistory.prune_due added ht = true /\
+   EvidenceHistory.as_won (EvidenceHistory.ms_att (EvidenceHistory.end_block keqb h added s sn ord ht)) = None /\
+   forall w, verify_evidence keqb (code_key h) ord sn (map EvidenceBytes.ev_of (EvidenceHistory.as_evs (EvidenceHistory.ms_att s))) <> Winner w).
+Proof.
+  exact (conj eq_refl (conj eq_refl (conj eq_refl
+    (conj (@EvidenceHistoryProofs.end_block_declares_before_pruning) (@EvidenceHistoryProofs.pruned_only_without_winner))))).
+Qed.
+Print Assumptions end_block_declares_before_it_prunes.
+
 
 (* --- source translation tie (GenFn) --- *)
 (* The Go function bodies named below are re-translated from the source on every check
